@@ -11,9 +11,12 @@ from vlib import Case
 LEVEL = "proof"
 WAITS = [0, 1, 1, 2, 5]
 
-# generator origins that reproduce defects of the CURRENT tree which are reported (see
-# known_findings / the unit report); they are generated only when the flag is set so that
-# `./check C13` is green on the current tree:   VERIF_C13_FLAGS=waitparent,waitpeer,objects ./check C13
+# VERIF_C13_FLAGS: comma separated switches.
+#   no-waitparent / no-waitpeer   leave out the instructions that made Reset / recompile delete a thread or an
+#                                 instance twice before /repo commit 2400851 (F-C13-a, F-C13-b); they are generated
+#                                 by default since that fix
+#   strictobjects                 also demand that Reset leaves no script-created object (it does not free objects
+#                                 that were published by a target name or a level variable: reported, not flagged)
 FLAGS = set(x for x in os.environ.get("VERIF_C13_FLAGS", "").split(",") if x)
 
 
@@ -56,7 +59,7 @@ class ProgGen:
         rng = self.rng
         k = rng.randint(1, 3)
         c = rng.choice(["o", "o", "u", "u", "g", "x", "t", "n", "n", "a", "l", "d", "f", "z", "q"] +
-                       (["wp"] if "waitparent" in FLAGS else []) + (["sv", "wl"] if "waitpeer" in FLAGS else []))
+                       (["wp"] if "no-waitparent" not in FLAGS else []) + (["sv", "wl"] if "no-waitpeer" not in FLAGS else []))
         if c in ("o", "u", "g", "x", "z"):
             return "%s%d" % (c, k)
         if c in ("t", "n"):
@@ -89,6 +92,8 @@ def history(rng, nthreads, nframes, depth, size, ext=False):
         for s in starts:
             if s == f:
                 ops.append(("S", pg.block(depth, size, ext)))
+                if ext and "no-waitpeer" not in FLAGS and rng.random() < 0.3:
+                    ops.append(("E", sum(1 for o in ops if o[0] == "S") - 1))     # a second instance of the same script
         if f < nframes:
             ops.append(("T", rng.choice([1, 1, 2, 3])))
             ops.append(("X",))
@@ -137,3 +142,215 @@ def variants(ops, rng, limit=None, recompile=True, destroy=True):
             lines += ["T 9", "X"] + SENTINEL
         res.append((tag, lines))
     return res
+
+
+# ------------------------------------------------------------- exhaustive small programs
+
+def skeletons(maxlen, depth, sublen=1):
+    """all programs (token lists without markers) with at most maxlen instructions in the outer block and at
+    most sublen in every nested block, nesting <= depth"""
+    atoms = [["w0"], ["w1"], ["p"]]
+    if depth > 0:
+        for sub in skeletons(sublen, depth - 1, sublen):
+            atoms.append(["T("] + sub + [")"])
+            atoms.append(["W("] + sub + [")"])
+    res = [[]]
+    for n in range(1, maxlen + 1):
+        for combo in itertools.product(atoms, repeat=n):
+            res.append([t for a in combo for t in a])
+    return res
+
+
+def with_markers(tokens):
+    """a distinct println before the program, after every instruction and at the start of every block"""
+    out, m = [], [0]
+
+    def mk():
+        m[0] += 1
+        return "p%d" % m[0]
+    out.append(mk())
+    for t in tokens:
+        if t == "p":
+            out.append(mk())
+        elif t in ("T(", "W("):
+            out += [t, mk()]
+        elif t == ")":
+            out += [")", mk()]
+        else:
+            out += [t, mk()]
+    return out
+
+
+class C13(vlib.HistoryProp):
+    cid = "C13"
+    variant = "asan"
+    harness_sources = ["harness/C13.cpp"]
+    use_lib = True
+    coq_dirs = ["Base", "C13"]
+    has_monitor = False
+    batch = 2500
+    timeout = 900
+
+    def __init__(self):
+        self.stats = {}
+
+    def bump(self, k, n=1):
+        self.stats[k] = self.stats.get(k, 0) + n
+
+    def assumptions(self):
+        return [
+            "injected integral millisecond clock (hook H1), constant during an Execute; time scale 1",
+            "Coq model and theorems: threads are abstract programs of println / wait / thread / waitthread / host_reset / host_recompile "
+            "(each wait-for and notify table holds at most one entry; Stop of a thread that still waits for somebody does not occur); "
+            "the interpreter's execution of other statements is C03's subject, waittill/notify C07's",
+            "SAMPLED ONLY (real engine under ASan, direct checks of the observed counts, no Coq model): waittill / notify on script-created "
+            "objects and on threads (parent thread, a peer instance's thread), spawn / remove of host entities, CreateListener, commanddelay "
+            "(queued events), arrays, loops, pause, several instances of one script, destruction of the context at every frame boundary",
+            "exactly-once destruction is a theorem about the model (ids are never reused there; a second destruction or the use of a "
+            "destroyed object sets the flag ub, proved unreachable); on the real engine it is observed as: pool counts of "
+            "ScriptThread/ScriptVM/ScriptClass equal to the model's after every host op, no ASan report (the pools recycle memory "
+            "without poisoning it: a double destruction is caught when it reaches malloc'ed memory - stacks, variable tables, the "
+            "pool block itself), the instance chain has as many links as the pool, a sentinel script runs as on a new engine",
+            "destroyed host entities are counted by the harness's own classes (constructor/destructor census with a magic word)",
+            "TrackedInstances::Cleanup() is called by the harness after every host op (the engine itself only calls it when the context dies)",
+            "Reset does not destroy script-created objects that were published by a target name or a level variable (they stay in "
+            "TrackedInstances until the context is destroyed): taken as specified behaviour; objects referenced only by local variables "
+            "must be gone once their threads are",
+            "leak check at context destruction: counts of the harness's entity census only (LeakSanitizer is off in the shared ASan "
+            "options; the library keeps process-wide caches)",
+        ]
+
+    # ------------------------------------------------------------------ generation
+    def gen(self, tier, seed):
+        rng = random.Random(seed)
+        cases = []
+        k = [0]
+
+        def add(lines, origin, ext=False):
+            cases.append(Case("%s%d" % ("x" if ext else "m", k[0]), "ext" if ext else "", lines, origin))
+            k[0] += 1
+
+        for p in sorted(glob.glob(os.path.join(vlib.VERIF, "corpus", "C13", "*.txt"))):
+            lines = [l.strip() for l in open(p) if l.strip() and not l.startswith("#")]
+            ext = bool(lines) and lines[0] == "ext"
+            if ext:
+                lines = lines[1:]
+            cases.append(Case("c_" + os.path.basename(p)[:-4], "ext" if ext else "", lines, "corpus"))
+        quick = tier == "quick"
+        # (1) exhaustive: every program skeleton (<= 2 instructions per block, nesting <= 1; thorough: <= 2) started at
+        #     frame 0 next to a bystander thread of another script, two frames; every injection point
+        sk = skeletons(2, 1, 1) if quick else skeletons(2, 2, 1) + skeletons(1, 1, 2)
+        for toks in sk:
+            prog = with_markers(toks)
+            ops = [("S", ["p90", "w1", "p91", "w1", "p92"]), ("S", prog), ("T", 1), ("X",), ("T", 1), ("X",)]
+            vs = variants(ops, rng, limit=None, recompile=True, destroy=not quick)
+            if quick:
+                # the bystander's own injection points are not interesting: drop injections into program 0
+                vs = [v for v in vs if not v[1][0].startswith("S p90 R") and " R " not in v[1][0] and " C " not in v[1][0]
+                      and not v[1][0].endswith(" R") and not v[1][0].endswith(" C") and not v[1][0].startswith("S R") and not v[1][0].startswith("S C")]
+                if len(vs) > 14:
+                    vs = [vs[0]] + rng.sample(vs[1:], 13)
+            for tag, lines in vs:
+                add(lines, "exhaustive-" + tag)
+        # (2) random histories of the model alphabet x every injection point (quick: a sample of them)
+        plan = [(2, 3, 2, 4, 60, 16), (3, 5, 3, 6, 40, 16)] if quick else [(2, 3, 2, 4, 500, None), (3, 5, 3, 6, 400, None), (4, 8, 3, 7, 150, 60)]
+        for nth, nfr, depth, size, cnt, lim in plan:
+            for _ in range(cnt):
+                ops = history(rng, rng.randint(1, nth), rng.randint(2, nfr), depth, size, False)
+                for tag, lines in variants(ops, rng, limit=lim):
+                    add(lines, "random-" + tag)
+        # (3) the full quantifier, sampled on the real engine only
+        plan = [(3, 4, 2, 5, 70, 12)] if quick else [(3, 4, 2, 5, 700, 40), (4, 8, 3, 7, 250, 40)]
+        for nth, nfr, depth, size, cnt, lim in plan:
+            for _ in range(cnt):
+                ops = history(rng, rng.randint(1, nth), rng.randint(2, nfr), depth, size, True)
+                for tag, lines in variants(ops, rng, limit=lim):
+                    if lines[-1] != "D":
+                        lines = lines + ["Q", "D"]
+                    add(lines, "ext-" + tag, ext=True)
+        return cases
+
+    # ------------------------------------------------------------------ canonicalisers
+    def canon_model(self, lines):
+        m = [l[2:] for l in lines if l.startswith("m ")]
+        s = [l[2:] for l in lines if l.startswith("s ")]
+        return m, [], m == s
+
+    LINE = re.compile(r"^(\S+) (\S+) idle=(\d) cls=(\d+) thr=(\d+) vm=(\d+) scr=(\d+) tmr=(\d) ev=(\d+) trk=(\d+) ent=(\d+) tmp=(\d+)$")
+
+    def canon_impl(self, lines):
+        cmp_, direct = [], []
+        nres = 0
+        for l in lines:
+            if l.startswith("V "):
+                direct.append(l[2:])
+                continue
+            if not (l.startswith("m ") or l.startswith("x ")):
+                continue
+            body = l[2:]
+            if l.startswith("m "):
+                cmp_.append(body)
+            if body.startswith("D "):
+                if body != "D destroyed ent=0 tmp=0":
+                    direct.append("context destruction left host entities alive: " + body)
+                self.bump("context_destructions")
+                continue
+            mt = self.LINE.match(body)
+            if not mt:
+                direct.append("unparsable observation: " + body)
+                continue
+            op, prints = mt.group(1), mt.group(2)
+            idle, ncls, thr, vm, scr, tmr, ev, trk, ent, tmp = (int(x) for x in mt.groups()[2:])
+            if ncls == 0 and ev == 0:
+                self.bump("quiescent_observations")
+                if thr or vm or tmr or not idle or tmp or trk != ent:
+                    direct.append("no instance and no queued event, but: " + body)
+            if (thr or ncls or ev) and idle:
+                direct.append("reports idle while something is alive: " + body)
+            if thr and not ncls:
+                direct.append("threads without an instance: " + body)
+            if vm != thr:
+                direct.append("VM count differs from thread count between host ops: " + body)
+            if tmr and not thr:
+                direct.append("pending timer without a thread: " + body)
+            if op == "R":
+                nres += 1
+                if ncls or thr or vm or scr or tmr or tmp or ("strictobjects" in FLAGS and (trk or ent)):
+                    direct.append("after Reset: " + body)
+        if nres:
+            self.bump("host_resets", nres)
+        return cmp_, [], direct, None
+
+    def nontrivial(self, case, compared):
+        # a destruction took away at least two threads at once, or a thread was destroyed from inside a host call
+        prev = 0
+        for c in compared:
+            mt = self.LINE.match(c)
+            if not mt:
+                continue
+            thr = int(mt.group(5))
+            if prev - thr >= 2:
+                return True
+            prev = thr
+        return any(" R " in o or " C " in o or o.endswith(" R") or o.endswith(" C") for o in case.ops if o.startswith("S"))
+
+
+HP = C13()
+
+
+def check(res, tier, seed):
+    res.cov["rule"] += ("C13: corpus (the two double-destruction defects as regression inputs); EXHAUSTIVE: every program with <= 2 instructions per block "
+                        "over {wait 0, wait 1, println, thread block, waitthread block} (nesting 1; thorough: 2) next to a bystander script, with a "
+                        "Reset / recompile of each script / context destruction injected between any two host ops and a host_reset / "
+                        "host_recompile at every instruction position (quick: a seeded sample of 13 injections per program); RANDOM: seeded "
+                        "histories of 1-4 scripts (nesting <= 3) x the same injections; each followed by a sentinel script with a wait; "
+                        "EXT (engine only): the same with waittill/notify, spawn/remove, listeners, queued events, arrays, loops, pause, "
+                        "second instances. non-trivial = a host op removed >= 2 threads at once or a host call inside a script reset/recompiled. ")
+    HP.stats = {}
+    vlib.history_check(res, HP, tier, seed)
+    res.cov["c13_observed"] = dict(HP.stats)
+    res.cov["flags"] = sorted(FLAGS)
+
+
+def replay(path):
+    return vlib.history_replay(HP, path)
